@@ -97,6 +97,7 @@ pub enum DataSpec {
     None,
     Dwarf(Pres, Vec<FdeSpec>),
     Pe(Vec<crate::pe::PeFuncSpec>),
+    Macho(crate::macho::MachoSpec),
 }
 
 /// How FDE addresses and the hdr table are encoded (irrelevant to the model).
@@ -186,6 +187,7 @@ impl ModSpec {
                 let f: Vec<String> = sorted.iter().map(|f| f.show()).collect();
                 format!("pe;{}", f.join("|"))
             }
+            DataSpec::Macho(m) => m.show(),
         }
     }
     pub fn line_fields(&self) -> String {
